@@ -181,3 +181,36 @@ def r_copybound(db, rep):
                      "%s copies %s bytes into %s, which it allocated with %s elements: the count depends on %s, which the extent does not "
                      "mention, and no test on the way relates the two (e.g. %s): a long enough argument writes past the buffer" % (
                          f.qn, symx.canon(N), fmt_path(f, dp), symx.canon(E), ", ".join(sorted(symx.canon(a) for a in only_n)), wit), f.qn)
+
+
+@rule("R-DELETECAST", 1, "an object is deleted through a pointer of its own class family: a delete-expression whose operand is an explicit "
+                         "cast between pointer types of unrelated classes (neither a base of the other) runs the wrong destructor on the "
+                         "wrong layout")
+def r_deletecast(db, rep):
+    for f in sorted(db.funcs.values(), key=lambda x: (x.file, x.line)):
+        if not f.body:
+            continue
+        for n in f.live_nodes():
+            if n["k"] != "CXXDeleteExpr" or n.get("sub") is None:
+                continue
+            e = n["sub"]
+            while isinstance(e, dict) and e["k"] in ("ParenExpr", "ImplicitCastExpr", "ExprWithCleanups") and e.get("sub") is not None:
+                e = e["sub"]
+            if not isinstance(e, dict) or e["k"] not in EXPLICIT_CASTS:
+                continue
+            to_t = f.type(e) or {}
+            src = strip(e["sub"])
+            from_t = f.type(src) or {}
+            tp = f.pointee(to_t) or {}
+            fp = f.pointee(from_t) or {}
+            a, b = tp.get("rec"), fp.get("rec")
+            rep.visit(f)
+            rep.inst(f.nloc(n), "%s deletes through a cast from %s* to %s*" % (f.qn, b, a))
+            rep.ob()
+            if not a or not b or a == b:
+                continue
+            if a in db.all_bases(b) or b in db.all_bases(a):
+                continue
+            rep.viol("%s#delete-%s-as-%s" % (f.qn, b.split("::")[-1], a.split("::")[-1]), f.nloc(n),
+                     "%s deletes a %s through a pointer cast to the unrelated class %s: undefined behaviour (wrong destructor, wrong "
+                     "deallocation size), and whatever was meant to be released is not" % (f.qn, b, a), f.qn)
